@@ -338,6 +338,11 @@ impl Rw {
                         self.log("R-SHIM", sp, "(a..=b).into_iter().collect() -> rws_char_range_collect");
                         return syn::parse2(quote! { rws_char_range_collect(#a, #b) }).ok();
                     }
+                } else {
+                    // X.into_iter().collect()  (characters collected into a String; the shim trait exists for [char] / Vec<char> only)
+                    let x = &ii.receiver;
+                    self.log("R-SHIM", sp, "X.into_iter().collect() -> (X).rws_into_iter_collect()");
+                    return syn::parse2(quote! { (#x).rws_into_iter_collect() }).ok();
                 }
             }
         }
